@@ -56,7 +56,10 @@ def generate(prop, tier, seed, run, log):
                 return {"error": "bad info json from generator %s: %s" % (w, e)}
             if prop is None or w != "shapes" or prop in SHAPE_PROPS:
                 for k, v in d.items():
-                    info[k] = v
+                    if k == "native_findings":
+                        info.setdefault("native_findings", []).extend(v)
+                    else:
+                        info[k] = v
     info["generator"] = {"cmd": "gen %s %s %d" % (" ".join(whats), tier, seed), "wall_s": round(time.time() - t0, 1),
                          "note": "native run of /repo's current tree (cfg miniscript_verif); produces the constants the harnesses decide statements about"}
     log("generator: %s in %.0fs" % (",".join(whats), time.time() - t0))
